@@ -48,6 +48,16 @@ func init() {
 			Req: []string{"def($block, aes.NewCipher(conv(_, $key)), 0)", "ok(io.ReadFull(rand.Reader, $iv))", "def($iv, $ct[:aes.BlockSize])", "def($ct, make(_, aes.BlockSize + len($plainText)))"}},
 		{ID: "E8.aes.encrypt.encoding", Fn: "crypto.EncryptAES", P: []string{"data", "key"}, Kind: "ret ok", Pat: "ret(base64.RawURLEncoding.EncodeToString($enc), nil)", Max: 1,
 			Req: []string{"def($enc, crypto.EncryptBytesAES(conv(_, $data), $key), 0)", "ok(crypto.EncryptBytesAES(conv(_, $data), $key))"}},
+		// sealing is total: decryption / encryption fail only for the stated reasons (undecodable text, bad key, short text,
+		// entropy failure) - never because of what the plaintext looks like
+		{ID: "E1.aes.decrypt.fails-only-malformed", Fn: "crypto.DecryptAES", P: []string{"data", "key"}, Kind: "ret fail",
+			Req: []string{"fail(base64.RawURLEncoding.DecodeString($data)) || fail(crypto.DecryptBytesAES(_, $key))"}},
+		{ID: "E1.aes.decrypt-bytes.fails-only-malformed", Fn: "crypto.DecryptBytesAES", P: []string{"cipherText", "key"}, Kind: "ret fail", MutOK: []string{"cipherText"},
+			Req: []string{"fail(aes.NewCipher(conv(_, $key))) || lt(len($cipherText), aes.BlockSize)"}},
+		{ID: "E1.aes.encrypt.fails-only-key-or-entropy", Fn: "crypto.EncryptAES", P: []string{"data", "key"}, Kind: "ret fail",
+			Req: []string{"fail(crypto.EncryptBytesAES(_, $key))"}},
+		{ID: "E1.aes.encrypt-bytes.fails-only-key-or-entropy", Fn: "crypto.EncryptBytesAES", P: []string{"plainText", "key"}, Kind: "ret fail",
+			Req: []string{"fail(aes.NewCipher(conv(_, $key))) || fail(io.ReadFull(rand.Reader, _))"}},
 		{ID: "E8.aes.decrypt.encoding", Fn: "crypto.DecryptAES", P: []string{"data", "key"}, Kind: "ret ok", Pat: "ret(conv(string, $dec), nil)", Max: 1,
 			Req: []string{"def($text, base64.RawURLEncoding.DecodeString($data), 0)", "ok(base64.RawURLEncoding.DecodeString($data))", "def($dec, crypto.DecryptBytesAES($text, $key), 0)", "ok(crypto.DecryptBytesAES($text, $key))"}},
 	}
